@@ -1986,6 +1986,7 @@ import Updog.Basic.GoPreludeT2 -- [t2]
 import Updog.Basic.GoPreludeT6 -- [t6]
 import Updog.Basic.GoPreludeT5 -- [t5]
 import Updog.Basic.GoPreludeT3 -- [t3]
+import Updog.Basic.GoPreludeT4 -- [t4]
 /-
 GENERATED by /verif/extract (translate.go) from the Go source on every run of ./check. Do not edit.
 Lean transcriptions of small pure Go functions, over the primitives of Updog/Basic/GoPrelude.lean.
@@ -2071,6 +2072,7 @@ func translateAll(repo string) (leanText string, lost map[string]string) {
 	tr.translateT6(emit, wrap) // [t6]
 	tr.translateT5(emit, wrap) // [t5]
 	tr.translateT3(emit, wrap) // [t3]
+	tr.translateT4(emit, wrap) // [t4]
 	b.WriteString("end Updog.Gen\n")
 	return b.String(), lost
 }
